@@ -63,9 +63,9 @@ def regenerate():
     tmp = os.path.join(BUILD, "gen.tmp")
     shutil.rmtree(tmp, ignore_errors=True)
     os.makedirs(tmp)
-    for tool in ("go2lean", "facts"):
+    for tool in sorted(os.listdir(os.path.join(VERIF, "tools"))):
         tdir = os.path.join(VERIF, "tools", tool)
-        if not os.path.isdir(tdir):
+        if not os.path.isdir(tdir) or not os.path.exists(os.path.join(tdir, "go.mod")):
             continue
         binp = os.path.join(BUILD, tool)
         if os.path.exists(binp):
